@@ -79,6 +79,8 @@ fn flagsets(th: bool, fifo: bool) -> Vec<i64> {
     let nb = if fifo { O_NONBLOCK } else { 0 };
     let mut v = vec![O_RDONLY | nb, O_WRONLY | O_NONBLOCK, O_RDWR | O_APPEND | nb, O_PATH, O_RDONLY | O_DIRECTORY | nb, O_RDONLY | O_NOFOLLOW | nb,
                      O_CREAT | O_WRONLY | nb, O_TMPFILE | O_RDWR | nb, O_CREAT | O_EXCL | O_RDWR | nb];
+    // combinations openat(2) accepts silently (the kernel's /proc re-open is the reference for all of them)
+    v.extend_from_slice(&[O_PATH | O_RDWR, O_PATH | O_APPEND, O_RDONLY | 0x4000_0000 | nb]);
     if th { v.extend_from_slice(&[O_RDONLY | O_NOATIME | nb, O_WRONLY | O_SYNC | O_NONBLOCK, O_RDWR | nb, O_PATH | O_DIRECTORY, O_RDONLY | O_NOCTTY | nb, O_EXCL | O_RDONLY | nb, O_WRONLY | O_DSYNC | O_APPEND | O_NONBLOCK, O_PATH | O_NOFOLLOW]); }
     v
 }
@@ -178,6 +180,22 @@ pub fn run_item(tier: &str, idx: usize, only: Option<&Value>) -> MResult<ItemRes
                     (Err(e), true) => { res.violate(format!("{}:unexpected-success:{}", wkind, errname(*e)), format!("{}: succeeded, the kernel's answer is {}", desc, errname(*e)), replay); }
                 }
                 if res.samples.len() < 3 && !h.is_empty() { res.sample(json!({"target": target, "fd": fdnum, "history": format!("{:?}", h), "op": op.brief(), "result": klass(&obs), "kernel": format!("{:?}", expect)})); }
+            }
+        }
+        // the same handle re-opened from a thread with its own descriptor table (the leader holds a decoy at that number)
+        if target != "l" {
+            for api in ["rust", "c"] {
+                let mut op = Op::new("reopen_unshared").handle("h").flags(if fifo { O_RDONLY | O_NONBLOCK } else if kind_of(&target) == "sock" { O_PATH } else { O_RDONLY }).num(50).path2("/w/outer/parent/secret");
+                if api == "c" { op = op.capi(); }
+                if let Some(o) = only { let want: Op = serde_json::from_value(o["op"].clone()).map_err(|e| Mach(e.to_string()))?; if want != op { continue; } }
+                let obs = w.one(op.clone())?;
+                res.evaluations += 1;
+                res.nontrivial += 1;
+                let replay = json!({"engine": "handlemc", "item": idx, "history_index": hi, "history": format!("{:?}", h), "target": target, "fd": fdnum, "worker": wkind, "op": op});
+                if obs.ok {
+                    let fd = obs.fd.as_ref().unwrap();
+                    if (fd.dev, fd.ino) != (ident.dev, ident.ino) { res.violate(format!("{}:wrong-inode:unshared-fd-table", wkind), format!("{} handle to {} re-opened from a thread with an unshared descriptor table: got {:?} (the thread-group leader's descriptor with the same number) instead of the handle's inode", wkind, target, fd.procpath), replay); }
+                } else if obs.panic.is_some() { res.violate(format!("{}:panic", wkind), format!("panic {:?}", obs.panic), replay); }
             }
         }
         w.one(Op::new("close_handle").handle("h"))?;
